@@ -66,6 +66,22 @@ struct Plain {
     n: i64,
 }
 
+// field attributes: renamed keys (required and optional field), a flattened nested type (its keys merged in place), a
+// skipped field (never stored; reads back as Default)
+#[derive(DbType, Clone, Debug, PartialEq)]
+struct Tagged {
+    db_id: Option<DbId>,
+    #[agdb(rename = "tag_name")]
+    name: String,
+    #[agdb(rename = "tag_group")]
+    group: Option<String>,
+    #[agdb(flatten)]
+    note: Note,
+    #[agdb(skip)]
+    cache: u64,
+    weight: Option<i64>,
+}
+
 fn kv<K: Into<DbValue>, V: Into<DbValue>>(k: K, v: V) -> DbKeyValue {
     DbKeyValue { key: k.into(), value: v.into() }
 }
@@ -101,6 +117,19 @@ fn expected_plain(v: &Plain) -> Vec<DbKeyValue> {
     vec![kv("label", v.label.clone()), kv("n", v.n), kv("db_element_id", "Plain")]
 }
 
+fn expected_tagged(v: &Tagged) -> Vec<DbKeyValue> {
+    let mut out = vec![kv("tag_name", v.name.clone())];
+    if let Some(g) = &v.group { out.push(kv("tag_group", g.clone())); }
+    out.push(kv("title", v.note.title.clone()));
+    out.push(kv("count", v.note.count));
+    if let Some(w) = &v.weight { out.push(kv("weight", *w)); }
+    out
+}
+fn gen_tagged(rng: &mut Rng) -> Tagged {
+    Tagged { db_id: None, name: word(rng), group: if rng.chance(2, 3) { Some(word(rng)) } else { None }, note: Note { title: word(rng), count: rng.below(7) as i64 },
+             cache: 0, weight: if rng.chance(1, 2) { Some(rng.below(9) as i64 - 4) } else { None } }
+}
+
 fn word(rng: &mut Rng) -> String {
     let n = rng.below(22) as usize; // crosses the 15 byte inline limit
     (0..n).map(|_| (b'a' + rng.below(26) as u8) as char).collect()
@@ -121,7 +150,7 @@ fn insert_event(ids: &[QueryId], values: &[Vec<DbKeyValue>], r: &Result<QueryRes
 }
 
 #[derive(Clone)]
-enum Stored { A(Account), P(Profile), N(Note), D(Device), F(Prefs), L(Plain) }
+enum Stored { A(Account), P(Profile), N(Note), D(Device), F(Prefs), L(Plain), T(Tagged) }
 
 /// typed read-back through both typed selects: `elements::<T>()` (Vec<T>) and `element::<T>()` (T)
 macro_rules! typed_read {
@@ -159,7 +188,13 @@ pub fn run(args: &Args) {
             let x = rng.below(10);
             if x < 5 || stored.is_empty() {
                 // insert a new element (one, or two at once through elements())
-                match rng.below(7) {
+                match rng.below(9) {
+                    7 | 8 => {
+                        let v = gen_tagged(&mut rng);
+                        let r = with_db_mut(&mut db, |d| d.exec_mut(QueryBuilder::insert().element(&v).query()));
+                        trace.emit(insert_event(&[QueryId::Id(DbId(0))], &[expected_tagged(&v)], &r));
+                        if let Ok(r) = &r { let id = r.elements[0].id.0; stored.push((id, Stored::T(Tagged { db_id: Some(DbId(id)), ..v }))); }
+                    }
                     4 => {
                         let v = Device { db_id: None, name: word(&mut rng), port: if rng.chance(1, 2) { Some(rng.below(9000)) } else { None } };
                         let r = with_db_mut(&mut db, |d| d.exec_mut(QueryBuilder::insert().element(&v).query()));
@@ -239,6 +274,14 @@ pub fn run(args: &Args) {
                         trace.emit(insert_event(&[QueryId::Id(DbId(id))], &[expected_device(&v)], &r));
                         if r.is_ok() { stored[i].1 = Stored::D(v); }
                     }
+                    Stored::T(o) => {
+                        let mut v = Tagged { db_id: Some(DbId(id)), ..gen_tagged(&mut rng) };
+                        if o.group.is_none() { v.group = None; } else if v.group.is_none() { v.group = Some(word(&mut rng)); }
+                        if o.weight.is_none() { v.weight = None; } else if v.weight.is_none() { v.weight = Some(rng.below(9) as i64 - 4); }
+                        let r = with_db_mut(&mut db, |d| d.exec_mut(QueryBuilder::insert().element(&v).query()));
+                        trace.emit(insert_event(&[QueryId::Id(DbId(id))], &[expected_tagged(&v)], &r));
+                        if r.is_ok() { stored[i].1 = Stored::T(v); }
+                    }
                     Stored::F(_) => continue,
                     Stored::N(_) => continue, // no id field: cannot be addressed through the type
                 }
@@ -254,8 +297,9 @@ pub fn run(args: &Args) {
                     Stored::D(d) => typed_read!(Device, &db, id, d),
                     Stored::F(f) => typed_read!(Prefs, &db, id, f),
                     Stored::L(l) => typed_read!(Plain, &db, id, l),
+                    Stored::T(t) => typed_read!(Tagged, &db, id, t),
                 };
-                trace.emit(json!({"ev": "TypedRead", "id": id, "ok": ok, "eq": eq, "type": match v { Stored::A(_) => "Account", Stored::P(_) => "Profile", Stored::N(_) => "Note", Stored::D(_) => "Device", Stored::F(_) => "Prefs", Stored::L(_) => "Plain" }}));
+                trace.emit(json!({"ev": "TypedRead", "id": id, "ok": ok, "eq": eq, "type": match v { Stored::A(_) => "Account", Stored::P(_) => "Profile", Stored::N(_) => "Note", Stored::D(_) => "Device", Stored::F(_) => "Prefs", Stored::L(_) => "Plain", Stored::T(_) => "Tagged" }}));
                 n_read += 1;
                 continue;
             }
